@@ -533,6 +533,9 @@ def check_export(model, rep):
 
 
 def check(model, rep):
+    # hidden state Python keeps outside the objects (not modelled by the evaluator): reported before anything else is evaluated
+    from checks.solver_common import package_lints as _package_lints
+    _package_lints(model, rep, 'C17.hidden-state', ('/solver.py', '/powertrain.py', '/mechanical_objects/'))
     rep.explain('C17: for each of the six concrete element classes the constructor and update_time_variables are evaluated '
                 'symbolically; per key, the advertise condition and the record condition are compared as exhaustive truth tables '
                 'over the optional-data atoms (with constructor parameters mapped to the fields they are stored in); the data the '
